@@ -542,11 +542,12 @@ func familyCache(t *testing.T) {
 						}
 					}
 					for i := 0; i < T.size(200, 500); i++ {
-						r.sleep([]time.Duration{0, 1, time.Duration(rng.Intn(3000)) * time.Millisecond, time.Duration(rng.Intn(90)) * time.Second}[rng.Intn(4)])
+						r.sleep([]time.Duration{0, 1, time.Duration(rng.Intn(3000)) * time.Millisecond, time.Duration(rng.Intn(90)) * time.Second, time.Duration(300+rng.Intn(500)) * time.Millisecond}[rng.Intn(5)])
 						k := keys[rng.Intn(len(keys))]
 						switch p := rng.Intn(100); {
 						case p < 40:
-							r.set(k, r.opIdx+1, []time.Duration{-1, 0, time.Second, 30 * time.Second, 10 * time.Minute, time.Hour}[rng.Intn(6)])
+							r.set(k, r.opIdx+1, []time.Duration{-1, 0, time.Second, 30 * time.Second, 10 * time.Minute, time.Hour,
+								400 * time.Millisecond, 600 * time.Millisecond, 1499 * time.Millisecond, 2500 * time.Millisecond, 999999999, 500000000}[rng.Intn(12)])
 						case p < 88:
 							r.get(k)
 						case p < 96:
